@@ -86,7 +86,9 @@ def main():
   rep = vlib.Report(PROP, "proof")
   from translate import schedgen
   gen = schedgen.emit(vlib.GEN)
-  info = vlib.build_obligations(PROP, gen_files=[gen], extra_files=[os.path.join(vlib.COQ, "theories", "Link", "SchedLink.v")])
+  from translate import lingen
+  lgen = lingen.emit(vlib.GEN)
+  info = vlib.build_obligations(PROP, gen_files=[gen, lgen], extra_files=[os.path.join(vlib.COQ, "theories", "Link", "SchedLink.v"), os.path.join(vlib.COQ, "theories", "Link", "LinLink.v")])
   errs = rep.obligations(info, "python3 tools/translate/schedgen.py coq/gen && coqc coq/gen/SchedGen.v && coqc coq/theories/Link/SchedLink.v && coqc coq/theories/Properties/C07.v")
   for e in errs:
     rep.violation("obligation-" + os.path.basename(e["file"]), "proof obligation no longer checks: " + e["error"][-400:],
